@@ -60,6 +60,12 @@ extern uint64_t g_N;
 #define V_HEAP_BYTES(p) ((uint64_t)0)
 #endif
 
+/* growth specification: max((3*old+1)/2, requested) clamped to the size type (mathematical: operands < 2^62) */
+#define GROW_15(c)      ((3 * (uint64_t)(c) + 1) / 2)
+#define GROW_MAX_(a, b) ((a) < (b) ? (b) : (a))
+#define GROW_MIN_(a, b) ((b) < (a) ? (b) : (a))
+#define GROW_SPEC(c, req) GROW_MIN_(GROW_MAX_(GROW_15(c), (uint64_t)(req)), (uint64_t)KMAX)
+
 /* ------------------------------------------------------------------------------------------------ ghost relations */
 /* location (obj, off) lies on element slot k in [lo, hi) of the buffer starting at d */
 #define LOC_IN(obj, off, d, lo, hi) \
